@@ -256,10 +256,16 @@ def frameSilk (mode : Mode) (act : Int) (st : St) (o : Sub) : St × Option Bool 
     ({ st with silk := r.1, modeNch := chans }, some r.2)
 
 /-- The end of a coded frame that was not dropped by SILK (src/opus_encoder.c:2419-2441):
-    `prev_mode`, then the DTX decision.  Returns the state and "return 1". -/
+    `prev_mode`, then the DTX decision.  `decide_dtx_mode` is consulted exactly when the generalised
+    detector was put in charge of this CALL (`st->use_dtx && !st->silk_mode.useDTX`, :2432), whatever the
+    per-frame analysis result says; under SILK's own DTX the counter is cleared.  (`isSil` and `o` are
+    kept as arguments for the callers; the per-frame `analysis_info->valid` enters through `act`.)
+    Returns the state and "return 1". -/
 def frameTail (useDtx isSil : Bool) (mode : Mode) (fQ1 : Nat) (toCelt : Bool) (act : Int) (st : St) (o : Sub) : St × Bool :=
   let pm : Mode := if toCelt then .celt else mode
-  if useDtx = true ∧ (o.valid = true ∨ isSil = true) then
+  let _ := isSil
+  let _ := o
+  if useDtx = true ∧ st.silkUseDtx = false then
     let d := decideDtx (act ≠ 0) st.nb fQ1
     ({ st with prevMode := pm, nb := d.2 }, d.1)
   else ({ st with prevMode := pm, nb := 0 }, false)
@@ -389,9 +395,8 @@ def inDtx (c : Cfg) (st : St) : Bool :=
       (`MAX_FRAMES_PER_PACKET`) and a SILK frame lasts at most 20 ms; it is preceded by at most one
       prefill call (`prefillFlag` 1 or 2, src/opus_encoder.c:2076-2090);
     * `st->mode` is one of the three modes once a call reaches the frame loop;
-    * (`coherentOk`, not monitored as an error) when the call starts from an analysis result that is
-      not valid and the input is not silent, the per-frame analysis results (`tonality_get_info`,
-      :1708) are not valid either. -/
+    (The per-frame analysis results of a multi-frame packet need not agree with the call-level one that
+    chose the detector: the frame tail follows the call-level choice, src/opus_encoder.c:2432.) -/
 
 def mainOk (fQ1 : Nat) (m : SCall) : Bool :=
   m.prefill == 0 && decide (1 ≤ m.frames.length) && decide (m.frames.length ≤ maxFramesPerPacket)
@@ -404,21 +409,11 @@ def subOk (fQ1 : Nat) (s : Sub) : Bool :=
       && mainOk fQ1 m
   | _ => false
 
-/-- Shape part of the contract: true by construction of the encoder; monitored (`BAD-ORACLE`). -/
+/-- The contract: true by construction of the encoder; monitored on every call (`BAD-ORACLE`). -/
 def shapeOk (c : Cfg) (o : CallOr) : Bool :=
   o.mode != .none && (o.mode == .celt || o.subs.all (subOk (subQ1 c o.mode)))
 
-/-- Coherence part: the per-frame analysis results are not "more valid" than the call-level one that
-    decided `silk_mode.useDTX`.  The real encoder violates it on rare calls (a multi-frame packet in
-    which the very first valid analysis result appears after the first coded frame); the harness
-    counts those (`incoherent_valid`) and the theorems that need it say so. -/
-def coherentOk (c : Cfg) (o : CallOr) : Bool :=
-  (analysisOn c && o.valid0) || isSilOf c o || o.subs.all (fun s => !s.valid)
-
-def oracleOk (c : Cfg) (o : CallOr) : Bool :=
-  o.mode != .none
-    && (o.mode == .celt || o.subs.all (subOk (subQ1 c o.mode)))
-    && ((analysisOn c && o.valid0) || isSilOf c o || o.subs.all (fun s => !s.valid))
+def oracleOk (c : Cfg) (o : CallOr) : Bool := shapeOk c o
 
 /-- State of a freshly created encoder (`opus_encoder_init`, src/opus_encoder.c:203-285). -/
 def initSt (channels : Nat) : St :=
